@@ -598,10 +598,10 @@ Section Dict.
   Qed.
 
   (* a required parameter cannot be omitted: the call fails before anything is sent *)
-  Lemma required_cannot_be_omitted n vs kwargs g p :
-    generate S snake vs = Some g -> sig_ok g = true ->
+  Lemma required_cannot_be_omitted n nm vs kwargs g p :
+    generate S nm vs = Some g -> sig_ok g = true ->
     In p (g_params g) -> p_required p = true -> assoc (p_name p) kwargs = None ->
-    call_method ser n S snake vs kwargs = PyMissingArg.
+    call_method ser n S snake nm vs kwargs = PyMissingArg.
   Proof.
     intros Hg Hs Hin Hr Ha. unfold call_method. rewrite Hg, Hs. simpl.
     rewrite (bind_missing _ _ _ Hin Hr Ha). reflexivity.
@@ -718,57 +718,51 @@ Section Call.
   Variable S : schema.
   Variable snake : bool.
   Hypothesis Hinputs : inputs_ok S snake = true.
+  Variable nm : string -> string.
   Variable vs : list vardef.
   Variable kwargs : list (string * pyval).
   Variable n : nat.
   Variable g : generated.
-  Hypothesis Hgen : generate S snake vs = Some g.
-  Hypothesis Hnames : names_ok S snake vs = true.
+  Hypothesis Hgen : generate S nm vs = Some g.
+  Hypothesis Hnames : names_wf S nm vs = true.
   Hypothesis Hvn : NoDup (map v_name vs).
-  Hypothesis Hcall : typed_call n S snake vs kwargs = true.
+  Hypothesis Hcall : typed_call n S snake nm vs kwargs = true.
 
-  Definition py (v : vardef) : string := pname snake (v_name v).
+  Definition py (v : vardef) : string := nm (v_name v).
   Definition argof (k : string) : pyval := match assoc k kwargs with Some a => a | None => PUnset end.
   Definition W (v : vardef) : pyval :=
     match wrap_arg ser S (v_type v) (argof (py v)) with Some w => w | None => PNone end.
 
-  (* --- names_ok unpacked --- *)
+  (* --- names_wf unpacked --- *)
   Lemma names_facts :
     (forall k, In k (map py vs) -> py_ok_name k = true) /\ NoDup (map py vs) /\
-    ~ In "gql" (map py vs) /\ ~ (In "query" (map py vs) /\ In "_query" (map py vs)) /\
-    ~ In "UNSET" (map py vs) /\
+    ~ In "gql" (map py vs) /\ ~ In "UNSET" (map py vs) /\
     (forall v f, In v vs -> var_ser S (v_type v) = Some f ->
-       ~ In f (map py vs) /\ f <> "query" /\ f <> "_query" /\ is_item_name f = false /\ f <> "UNSET").
+       ~ In f (map py vs) /\ query_like f = false /\ is_item_name f = false /\ f <> "UNSET").
   Proof.
-    pose proof Hnames as Hn. unfold names_ok in Hn. fold py in Hn.
+    pose proof Hnames as Hn. unfold names_wf in Hn. fold py in Hn.
     apply andb_true_iff in Hn as [Hn H6]. apply andb_true_iff in Hn as [Hn H5].
     apply andb_true_iff in Hn as [Hn H4]. apply andb_true_iff in Hn as [Hn H3].
     apply andb_true_iff in Hn as [H1 H2].
-    assert (Hser6 : forall v f, In v vs -> var_ser S (v_type v) = Some f ->
-              negb (mem_str f (map py vs)) && negb (String.eqb f "query") && negb (String.eqb f "_query")
-              && negb (is_item_name f) && negb (String.eqb f "UNSET") = true).
-    { intros v f Hv Hf. rewrite forallb_forall in H6. specialize (H6 v Hv). rewrite Hf in H6. exact H6. }
-    split; [|split; [|split; [|split; [|split]]]].
+    split; [|split; [|split; [|split]]].
     - intros k Hk. rewrite forallb_forall in H1. apply H1; exact Hk.
     - apply nodup_str_NoDup; exact H2.
     - apply mem_str_false. apply negb_true_iff; exact H3.
-    - intros [A B]. apply mem_str_In in A. apply mem_str_In in B. rewrite A, B in H4. discriminate.
-    - apply mem_str_false. apply negb_true_iff; exact H5.
-    - intros v f Hv Hf. specialize (Hser6 v f Hv Hf).
-      apply andb_true_iff in Hser6 as [Hs E5]. apply andb_true_iff in Hs as [Hs E4].
-      apply andb_true_iff in Hs as [Hs E3]. apply andb_true_iff in Hs as [E1 E2].
+    - apply mem_str_false. apply negb_true_iff; exact H4.
+    - intros v f Hv Hf. rewrite forallb_forall in H5, H6. specialize (H5 v Hv). specialize (H6 v Hv).
+      rewrite Hf in H5. unfold ser_name_ok in H6. rewrite Hf in H6.
+      apply andb_true_iff in H6 as [Hs E5]. apply andb_true_iff in Hs as [E3 E4].
       repeat split.
-      + apply mem_str_false. apply negb_true_iff; exact E1.
-      + apply String.eqb_neq. apply negb_true_iff; exact E2.
-      + apply String.eqb_neq. apply negb_true_iff; exact E3.
+      + apply mem_str_false. apply negb_true_iff; exact H5.
+      + apply negb_true_iff; exact E3.
       + apply negb_true_iff; exact E4.
       + apply String.eqb_neq. apply negb_true_iff; exact E5.
   Qed.
 
   (* --- the generator's output --- *)
-  Lemma gen_struct : exists l, map_opt (gen_one S snake) vs = Some l /\ g_dict g = map snd l.
+  Lemma gen_struct : exists l, map_opt (gen_one S nm) vs = Some l /\ g_dict g = map snd l.
   Proof.
-    unfold generate in Hgen. destruct (map_opt (gen_one S snake) vs) as [l|] eqn:E; [|discriminate].
+    unfold generate in Hgen. destruct (map_opt (gen_one S nm) vs) as [l|] eqn:E; [|discriminate].
     inversion Hgen; subst. exists l. split; reflexivity.
   Qed.
 
@@ -863,12 +857,22 @@ Section Call.
   Definition qv : string := hd "query" (variable_names g).
   Definition env1 : list (string * pyval) := (qv, query_text) :: env0.
 
-  Lemma qv_cases : (qv = "query" /\ ~ In "query" (map py vs)) \/ (qv = "_query" /\ In "query" (map py vs)).
+  Lemma strip_us_cons x : strip_us ("_" ++ x) = strip_us x.
+  Proof. reflexivity. Qed.
+
+  Lemma fresh_local_query_like : forall m names x, query_like x = true -> query_like (fresh_local m names x) = true.
   Proof.
-    unfold qv, variable_names. simpl. unfold local_name. simpl.
-    destruct (mem_str "query" (map p_name (g_params g))) eqn:E.
-    - right. split; [reflexivity|]. apply params_names. apply mem_str_In. exact E.
-    - left. split; [reflexivity|]. intro H. apply params_names in H. apply mem_str_In in H. congruence.
+    induction m as [|m IH]; intros names x H; simpl; [exact H|].
+    destruct (mem_str x names); [|exact H]. apply IH. exact H.
+  Qed.
+
+  (* the method's `query` local is renamed until it is no parameter; it always looks like _..._query *)
+  Lemma qv_free : ~ In qv (map py vs) /\ query_like qv = true.
+  Proof.
+    unfold qv, variable_names. cbn [map hd]. split.
+    - intro H. apply params_names in H.
+      apply (local_name_free ("self" :: map p_name (g_params g)) "query"). right. exact H.
+    - unfold local_name. apply fresh_local_query_like. reflexivity.
   Qed.
 
   Lemma env1_other k : k <> qv -> assoc k env1 = assoc k env0.
@@ -876,24 +880,23 @@ Section Call.
 
   Lemma env1_py k : In k (map py vs) -> assoc k env1 = Some (argof k).
   Proof.
-    intro Hk. destruct names_facts as [_ [_ [_ [N4 _]]]].
-    rewrite env1_other; [apply env0_in; exact Hk|].
-    destruct qv_cases as [[E Hq]|[E Hq]]; rewrite E; intro; subst k; [contradiction|apply N4; split; assumption].
+    intro Hk. rewrite env1_other; [apply env0_in; exact Hk|].
+    intro; subst k. apply (proj1 qv_free). exact Hk.
   Qed.
 
-  Lemma env1_free k : ~ In k (map py vs) -> k <> "query" -> k <> "_query" -> assoc k env1 = None.
+  Lemma env1_free k : ~ In k (map py vs) -> query_like k = false -> assoc k env1 = None.
   Proof.
-    intros Hk H1 H2. rewrite env1_other; [apply env0_out; exact Hk|].
-    destruct qv_cases as [[E _]|[E _]]; rewrite E; assumption.
+    intros Hk Hq. rewrite env1_other; [apply env0_out; exact Hk|].
+    intro; subst k. rewrite (proj2 qv_free) in Hq. discriminate.
   Qed.
 
   (* --- the serialize function chosen by the generator is the one of the variable's named type --- *)
   Lemma ser_name_var_ser : forall t nl a u, parse_type_node S t nl = Some (a, u) -> ser_name S u = var_ser S t.
   Proof.
-    induction t as [nm|t' IH|t' IH]; intros nl a u H.
+    induction t as [tn|t' IH|t' IH]; intros nl a u H.
     - simpl in H. unfold parse_named in H. unfold var_ser. simpl.
-      destruct (lookup_type S nm) as [[b|[c|]|vals|fs]|] eqn:El; inversion H; subst; try reflexivity.
-      unfold ser_name. unfold lookup_type in El. destruct (builtin_of nm); [discriminate|]. rewrite El. reflexivity.
+      destruct (lookup_type S tn) as [[b|[c|]|vals|fs]|] eqn:El; inversion H; subst; try reflexivity.
+      unfold ser_name. unfold lookup_type in El. destruct (builtin_of tn); [discriminate|]. rewrite El. reflexivity.
     - simpl in H. destruct (parse_type_node S t' true) as [[a' u']|] eqn:E; [|discriminate].
       inversion H; subst. unfold var_ser. simpl. apply (IH true a' u E).
     - simpl in H. unfold var_ser. simpl. apply (IH false a u H).
@@ -913,7 +916,7 @@ Section Call.
     destruct (arg_delivery ser Hser S snake Hinputs n (v_type v) a Hc) as [w [j [c [H0 [H1 [H2 [H3 _]]]]]]].
     unfold W, argof. rewrite Ha, H0. exists j, c. repeat split; try assumption.
     intro E; subst a. unfold wrap_arg in H0. destruct (var_ser S (v_type v)) as [f|]; [|congruence].
-    destruct (v_type v) as [nm|t'|t']; simpl in H0; try (inversion H0; reflexivity).
+    destruct (v_type v) as [tn|t'|t']; simpl in H0; try (inversion H0; reflexivity).
     destruct n; [discriminate|]. simpl in Hc. discriminate.
   Qed.
 
@@ -933,7 +936,7 @@ Section Call.
     - apply (W_omitted v Hv Ha).
   Qed.
 
-  Lemma eval_entry v p e : In v vs -> gen_one S snake v = Some (p, e) ->
+  Lemma eval_entry v p e : In v vs -> gen_one S nm v = Some (p, e) ->
     exists lg, eval_se ser env1 (snd e) = Some (W v, lg).
   Proof.
     intros Hv Hg. destruct (gen_one_dictval _ _ _ _ _ Hg) as [a [u [Hp He]]]. rewrite He.
@@ -941,8 +944,8 @@ Section Call.
     pose proof (W_wrap v Hv) as Hw. unfold wrap_arg in Hw.
     assert (Hpy : In (py v) (map py vs)) by (apply in_map; exact Hv).
     destruct (var_ser S (v_type v)) as [f|] eqn:Ef.
-    - destruct names_facts as [_ [_ [_ [_ [N5 N6]]]]].
-      destruct (N6 v f Hv Ef) as [F1 [F2 [F3 [F4 F5]]]].
+    - destruct names_facts as [_ [_ [_ [N5 N6]]]].
+      destruct (N6 v f Hv Ef) as [F1 [F2 [F4 F5]]].
       rewrite (eval_gen ser f) with (v := argof (py v)).
       + simpl Nat.eqb. destruct (ser_arg ser f (v_type v) true true (argof (py v))) as [[w lg]|]; [|discriminate].
         simpl in Hw. inversion Hw; subst. exists lg. reflexivity.
@@ -950,21 +953,21 @@ Section Call.
         apply String.eqb_eq in E. subst f. unfold is_item_name in F4. rewrite item_prefix in F4. discriminate.
       + apply env1_py; exact Hpy.
       + apply env1_free; assumption.
-      + apply env1_free; [exact N5|discriminate|discriminate].
+      + apply env1_free; [exact N5|reflexivity].
     - inversion Hw. exists []. change (eval_se ser env1 (EVar (py v))) with
         (option_map (fun x => (x, @nil (string * pyval))) (assoc (py v) env1)).
       rewrite (env1_py _ Hpy). reflexivity.
   Qed.
 
   Lemma eval_dict_map env vs' : forall l',
-    map_opt (gen_one S snake) vs' = Some l' ->
-    (forall v p e, In v vs' -> gen_one S snake v = Some (p, e) -> exists lg, eval_se ser env (snd e) = Some (W v, lg)) ->
+    map_opt (gen_one S nm) vs' = Some l' ->
+    (forall v p e, In v vs' -> gen_one S nm v = Some (p, e) -> exists lg, eval_se ser env (snd e) = Some (W v, lg)) ->
     eval_dict ser env (map snd l') = Some (map (fun v => (v_name v, W v)) vs').
   Proof.
     induction vs' as [|a vs' IH]; simpl; intros l' H Hall.
     - inversion H; reflexivity.
-    - destruct (gen_one S snake a) as [[p e]|] eqn:E; [|discriminate].
-      destruct (map_opt (gen_one S snake) vs') as [l|] eqn:E2; [|discriminate].
+    - destruct (gen_one S nm a) as [[p e]|] eqn:E; [|discriminate].
+      destruct (map_opt (gen_one S nm) vs') as [l|] eqn:E2; [|discriminate].
       inversion H; subst; simpl. destruct e as [k dv].
       destruct (Hall a p (k, dv) (or_introl eq_refl) E) as [lg Hlg]. simpl in Hlg. rewrite Hlg.
       rewrite (IH l eq_refl); [|intros v p' e' Hv; apply Hall; right; exact Hv].
@@ -978,7 +981,7 @@ Section Call.
 
   (* the call sends a payload; for every variable, what is found under its GraphQL name *)
   Lemma call_shape : exists sent,
-    (forall m, n <= m -> call_method ser m S snake vs kwargs = Sent sent) /\
+    (forall m, n <= m -> call_method ser m S snake nm vs kwargs = Sent sent) /\
     (forall v, In v vs -> jlookup (v_name v) sent =
                           match W v with PUnset => None | _ => convert_value ser n S snake (W v) end).
   Proof.
@@ -1003,12 +1006,12 @@ Section Call.
 
   (* END TO END: the payload coerces, under the operation's variable definitions, to exactly the caller's values *)
   Theorem call_delivery : exists sent cs,
-    (forall m, n <= m -> call_method ser m S snake vs kwargs = Sent sent) /\
-    coerce_vars n S vs sent = Some cs /\ intended_vars ser n S snake vs kwargs = Some cs.
+    (forall m, n <= m -> call_method ser m S snake nm vs kwargs = Sent sent) /\
+    coerce_vars n S vs sent = Some cs /\ intended_vars ser n S snake nm vs kwargs = Some cs.
   Proof.
     destruct call_shape as [sent [Hsent Hlook]]. exists sent.
     assert (H : forall vs', incl vs' vs -> exists cs, coerce_vars n S vs' sent = Some cs /\
-                                              intended_vars ser n S snake vs' kwargs = Some cs).
+                                              intended_vars ser n S snake nm vs' kwargs = Some cs).
     { induction vs' as [|v r IH]; intro Hincl.
       - exists []. split; reflexivity.
       - destruct IH as [cs [Hc Hi]]; [intros x Hx; apply Hincl; right; exact Hx|].
@@ -1032,7 +1035,7 @@ Section Call.
 
   (* an omitted optional argument leaves no key in the payload of the call *)
   Theorem call_omitted_absent v : In v vs -> assoc (py v) kwargs = None ->
-    exists sent, (forall m, n <= m -> call_method ser m S snake vs kwargs = Sent sent) /\
+    exists sent, (forall m, n <= m -> call_method ser m S snake nm vs kwargs = Sent sent) /\
                  jlookup (v_name v) sent = None.
   Proof.
     intros Hv Ha. destruct call_shape as [sent [Hsent Hlook]]. exists sent. split; [exact Hsent|].
@@ -1041,7 +1044,7 @@ Section Call.
 
   (* an explicit None travels as null *)
   Theorem call_none_is_null v : In v vs -> assoc (py v) kwargs = Some PNone ->
-    exists sent, (forall m, n <= m -> call_method ser m S snake vs kwargs = Sent sent) /\
+    exists sent, (forall m, n <= m -> call_method ser m S snake nm vs kwargs = Sent sent) /\
                  jlookup (v_name v) sent = Some JNull.
   Proof.
     intros Hv Ha. destruct call_shape as [sent [Hsent Hlook]]. exists sent. split; [exact Hsent|].
@@ -1049,3 +1052,81 @@ Section Call.
     pose proof (call_facts v Hv) as Hc. rewrite Ha in Hc. destruct n; [discriminate|]. reflexivity.
   Qed.
 End Call.
+
+(* ---------- the generator's naming (suffix loop) satisfies what the method needs ---------- *)
+Section Naming.
+  Variable S : schema.
+  Variable snake : bool.
+
+  Lemma s2l_app a b : s2l (a ++ b) = (s2l a ++ s2l b)%list.
+  Proof. unfold s2l. induction a as [|c a IH]; simpl; [reflexivity|]. rewrite IH. reflexivity. Qed.
+
+  Definition ends_us (l : chars) : bool := match rev l with c :: _ => is_us c | [] => false end.
+
+  Lemma no_keyword_ends_us : forallb (fun k => negb (ends_us k)) kwlist = true.
+  Proof. vm_compute. reflexivity. Qed.
+
+  Lemma ident_ok_us b : ident_ok b = true -> ident_ok (b ++ "_") = true.
+  Proof.
+    unfold ident_ok. intro H. apply andb_true_iff in H as [Hi _]. rewrite s2l_app. apply andb_true_iff. split.
+    - unfold py_identifier, gql_name in *. destruct (s2l b) as [|c r]; [discriminate|].
+      simpl. apply andb_true_iff in Hi as [H1 H2]. rewrite H1. simpl in H2. simpl.
+      apply andb_true_iff in H2 as [H2 H3]. rewrite H2. simpl. rewrite forallb_app, H3. reflexivity.
+    - apply negb_true_iff. unfold iskeyword. destruct (mem_chars (s2l b ++ s2l "_")%list kwlist) eqn:E; [|reflexivity].
+      apply mem_chars_In in E. pose proof no_keyword_ends_us as Hk. rewrite forallb_forall in Hk.
+      specialize (Hk _ E). unfold ends_us in Hk. rewrite rev_app_distr in Hk. simpl in Hk. discriminate.
+  Qed.
+
+  Lemma ident_ok_usk b k : ident_ok b = true -> ident_ok (b ++ us k) = true.
+  Proof.
+    intro H. induction k as [|k IH]; simpl; [rewrite append_nil_r; exact H|].
+    replace (b ++ String "_" (us k))%string with ((b ++ us k) ++ "_")%string.
+    - apply ident_ok_us. exact IH.
+    - rewrite append_assoc'. f_equal. symmetry. apply (us_comm k).
+  Qed.
+
+  Lemma var_ser_reserved t f : var_ser S t = Some f -> In f (reserved_names S).
+  Proof.
+    unfold var_ser, reserved_names. intro H.
+    destruct (lookup_type S (named_of t)) as [[b|[c|]|vals|fs]|] eqn:El; try discriminate.
+    simpl in H. destruct (sc_ser c) as [f0|] eqn:Es; [|discriminate]. inversion H; subst.
+    unfold lookup_type in El. destruct (builtin_of (named_of t)); [discriminate|].
+    apply assoc_In_pair in El. apply in_or_app. right. apply in_flat_map.
+    exists (named_of t, DCustom (Some c)). split; [exact El|]. simpl. rewrite Es. left; reflexivity.
+  Qed.
+
+  (* distinct GraphQL variable names + mangled names that are identifiers (+ sane serialize function names):
+     the assigned parameters are valid, pairwise distinct, never reserved *)
+  Lemma naming_wf vs :
+    NoDup (map v_name vs) -> names_ok S snake vs = true -> names_wf S (naming S snake vs) vs = true.
+  Proof.
+    intros Hnd Hok. unfold names_ok in Hok. apply andb_true_iff in Hok as [Hid Hser].
+    unfold names_wf. rewrite (naming_names S snake vs Hnd).
+    set (bases := map (base_name snake) (map v_name vs)).
+    destruct (assign_free bases (reserved_names S)) as [Hnodup Hfree].
+    pose proof (assign_form bases (reserved_names S)) as Hform.
+    assert (Hres : forall r, In r (reserved_names S) -> mem_str r (assign (reserved_names S) bases) = false).
+    { intros r Hr. apply mem_str_false. intro Hin. apply (Hfree r Hin Hr). }
+    assert (Hbases : Forall (fun b => ident_ok b = true) bases).
+    { unfold bases. rewrite map_map. apply Forall_forall. intros b Hb. apply in_map_iff in Hb as [v [E Hv]].
+      subst b. rewrite forallb_forall in Hid. apply Hid; exact Hv. }
+    repeat (apply andb_true_iff; split).
+    - apply forallb_forall. intros p Hp.
+      assert (Hident : ident_ok p = true).
+      { clear - Hform Hbases Hp. induction Hform as [|b q bs qs Hbq Hrest IH]; [contradiction|].
+        inversion Hbases; subst. destruct Hp as [E|Hp]; [|apply IH; assumption].
+        subst q. destruct Hbq as [k Hk]. rewrite Hk. apply ident_ok_usk. assumption. }
+      unfold ident_ok in Hident. apply andb_true_iff in Hident as [H1 H2].
+      unfold py_ok_name. rewrite H1, H2. simpl.
+      assert (Hs : ~ In p (reserved_names S)) by (apply Hfree; exact Hp).
+      destruct (String.eqb p "self") eqn:E1; [apply String.eqb_eq in E1; subst; exfalso; apply Hs; left; reflexivity|].
+      destruct (String.eqb p "kwargs") eqn:E2; [apply String.eqb_eq in E2; subst; exfalso; apply Hs; right; left; reflexivity|].
+      reflexivity.
+    - apply nodup_str_NoDup. exact Hnodup.
+    - rewrite Hres; [reflexivity|]. right; right; left; reflexivity.
+    - rewrite Hres; [reflexivity|]. right; right; right; left; reflexivity.
+    - apply forallb_forall. intros v Hv. destruct (var_ser S (v_type v)) as [f|] eqn:Ef; [|reflexivity].
+      rewrite Hres; [reflexivity|]. eapply var_ser_reserved; exact Ef.
+    - exact Hser.
+  Qed.
+End Naming.
